@@ -286,7 +286,7 @@ def phaseA_worker(args):
                         ndropped += 1
                         ci += 1
                         continue
-                    cases.append(("u%dc%d" % (uid, ci), rule, s, 200 * steps + 100000))
+                    cases.append(("u%dc%d" % (uid, ci), rule, s, min(200 * steps + 100000, max(3000000, 12 * steps))))
                     ci += 1
             u["cases"] = cases
             with open(os.path.join(rundir, "u%d.pkl" % uid), "wb") as f:
